@@ -38,6 +38,10 @@ func main() {
 		cluster.PbkvsChild(cfg, os.Getenv("C14_OUT"))
 		return
 	}
+	if r.Replay != "" {
+		replay(r)
+		return
+	}
 	scratch := common.Scratch("c14")
 	defer os.RemoveAll(scratch)
 	var mu sync.Mutex
@@ -236,4 +240,49 @@ func tail(s string, n int) string {
 		return s[len(s)-n:]
 	}
 	return s
+}
+
+// replay re-judges the stored client history with the same oracles.
+func replay(r *common.Run) {
+	key, _, wit, err := r.LoadReplay()
+	if err != nil {
+		fmt.Println("cannot read replay file:", err)
+		os.Exit(3)
+	}
+	var ops []linz.Op
+	if wit["setting"] == "cluster" || wit["setting"] == "tcp" {
+		_ = common.Remarshal(wit["history"], &ops)
+	} else {
+		var h []adapters.HistOp
+		_ = common.Remarshal(wit["history"], &h)
+		ops = toOps(h)
+	}
+	if o, ok := wit["opts"]; ok && wit["setting"] == nil {
+		// simulated case: deterministic from (opts, seed) — re-execute and re-evaluate the monitors
+		var opts adapters.PbkvsOpts
+		_ = common.Remarshal(o, &opts)
+		seed, _ := wit["seed"].(float64)
+		ps := adapters.Pbkvs(int64(seed), opts)
+		out := ps.Run(1500, false)
+		for _, v := range out.Violations {
+			r.Report(v.Key, v.Desc, map[string]any{"opts": opts, "seed": int64(seed), "steps": out.StepLog})
+		}
+		if out.Result.Err != nil && !out.Result.MonitorErr {
+			r.Report("C14:sim:archetype-error", out.Result.Err.Error(), wit)
+		}
+		ops = toOps(ps.History())
+	}
+	if len(ops) > 0 {
+		switch linz.Classify(ops, 120*time.Second) {
+		case linz.VAtLeastOnce:
+			r.Report("C14:retried-put-applied-twice", "stored history: not linearizable; linearizable against the at-least-once register", wit)
+		case linz.VIllegal:
+			r.Report("C14:not-linearizable", "stored history is not linearizable", wit)
+		case linz.VUnknown:
+			r.Inconclusive("porcupine timeout on the stored history")
+		}
+	} else {
+		fmt.Println("replay file holds no history (key " + key + "): monitor violations of simulated runs are reproduced by re-running the check with the same VERIF_SEED")
+	}
+	r.FinishReplay(key)
 }
